@@ -28,7 +28,7 @@ POLICIES = [["collect", "print"], ["collect"], ["collect", "fail"], ["collect", 
 
 
 def generate(rng, i, tier):
-    rows = gen.gen_rows(rng)
+    rows = gen.gen_rows(rng, nasty=rng.random() < 0.3, extra_cells=[" 2", "x ", "  ", " a b "])
     modes = {}
     if rng.random() < 0.2:
         modes["return-mode"] = "no-matches"
@@ -43,7 +43,7 @@ def generate(rng, i, tier):
         # narrow the returned line with collect(): columns that exist, and sometimes one that a short line lacks
         ncol = len(rows[0])
         cols = sorted(rng.sample(range(ncol + (1 if rng.random() < 0.3 else 0)), rng.randint(1, min(2, ncol))))
-        m["comps"].insert(rng.randint(0, len(m["comps"])), "collect(" + ", ".join(f"#{c}" for c in cols) + ")")
+        m["comps"].insert(rng.randint(0, len(m["comps"])), "collect(" + ", ".join((f"{c}" if rng.random() < 0.5 or c >= ncol else f'"{rows[0][c]}"') for c in cols) + ")")
         if rng.random() < 0.85:
             # (projection together with unmatched-mode: keep is a known finding - keep most runs away from it)
             (m.get("modes") or {}).pop("unmatched-mode", None)
